@@ -2,7 +2,7 @@
    ProcLocal (shape and domains), ProcKeep (bindings of one name), ProcFlow (control transfers). *)
 From Coq Require Import Floats Lia Permutation.
 Require Import Csvq.Model.Base Csvq.Model.Value Csvq.Model.Compare Csvq.Model.Arith Csvq.Model.Proc Csvq.Model.ProcSpec.
-Require Import Csvq.Proofs.ProcSim Csvq.Proofs.ProcLocal Csvq.Proofs.ProcKeep Csvq.Proofs.ProcFlow.
+Require Import Csvq.Proofs.ProcSim Csvq.Proofs.ProcLocal Csvq.Proofs.ProcKeep Csvq.Proofs.ProcFlow Csvq.Proofs.ProcPure.
 Open Scope Z_scope.
 
 (* the statements that open a block of their own *)
@@ -259,3 +259,27 @@ Proof. intros M A n ts K s. destruct (flow_all M A n) as (_ & _ & _ & _ & _ & H 
 Theorem flow_spec_call : forall (M : machine) (A : Type) n fd vs (E : econts M A) s,
   kcall M A n fd vs E s = edispatch M A (call M n fd vs s) E.
 Proof. intros M A n fd vs E s. destruct (flow_all M A n) as (_ & _ & H & _). apply H. Qed.
+
+(* ---- concurrent invocations of functions that write only their own parameters and locals ------------------ *)
+(* on the pooled heap, whatever the pool does: evaluating the rows one after the other (any order of
+   completion of the goroutines, at invocation granularity) gives every row the result it gets when it
+   is evaluated alone from the calling scope *)
+Theorem heap_rows_sequential : forall policy n f rows (s : gst (heapM policy)),
+  hinv (ms s) -> store_pure (h_view (ms s)) ->
+  seq_rows (heapM policy) n f rows s = call_on_rows (heapM policy) n f rows s.
+Proof.
+  intros policy n f rows s Hi Hst.
+  assert (G : forall s1 : gst (heapM policy), hinv (ms s1) -> h_view (ms s1) = h_view (ms s) -> out s1 = out s ->
+              seq_rows (heapM policy) n f rows s1 = call_on_rows (heapM policy) n f rows s).
+  { induction rows as [|r rs IH]; intros s1 Hi1 Hv1 Ho1; simpl; [reflexivity|].
+    destruct (eval (heapM policy) n (PCall f [PLit r]) s1) as [x s2] eqn:E.
+    destruct (invocation_independent_of_pool policy policy n (PCall f [PLit r]) s1 s Hi1 Hi Hv1 Ho1) as (Ex & _ & _).
+    rewrite E in Ex. simpl in Ex. rewrite Ex. f_equal.
+    destruct (heap_eval policy n (PCall f [PLit r]) s1 Hi1) as (_ & Hi2 & Ha2). rewrite E in Hi2, Ha2. simpl in Hi2, Ha2.
+    destruct (eval pureM n (PCall f [PLit r]) (abs policy s1)) as [xp sp] eqn:Ep. simpl in Ha2.
+    assert (Hsp : sp = abs policy s1).
+    { apply (pure_call_state n f [r] (abs policy s1) xp sp); [|exact Ep]. unfold frames, abs. simpl. rewrite Hv1. exact Hst. }
+    rewrite Hsp in Ha2. unfold abs in Ha2. inversion Ha2 as [[Hv2 Ho2]].
+    apply IH; [exact Hi2|congruence|congruence]. }
+  apply G; auto.
+Qed.
